@@ -1167,6 +1167,11 @@ func (p *printVisitor) EnterSchemaDefinition(ref int) {
 }
 
 func (p *printVisitor) LeaveSchemaDefinition(ref int) {
+	if len(p.document.SchemaDefinitions[ref].RootOperationTypeDefinitions.Refs) == 0 {
+		// the parser accepts an empty body: the opening brace is otherwise written with the first
+		// root operation type, and without it the print does not parse
+		p.write(literal.LBRACE)
+	}
 	if p.indent != nil {
 		p.write(literal.LINETERMINATOR)
 	}
